@@ -107,6 +107,11 @@ func (s *S) finish() {
 	if amb > 0 {
 		s.c.Count("ambiguous-acceptance")
 	}
+	if s.bad {
+		// already reported by an implementation-level oracle with its own case
+		s.c.Count("scenario-failed:" + s.name)
+		return
+	}
 	line := "H " + s.name + " | " + genx.Line(evs)
 	s.c.Case(line, line, len(evs) > 3)
 	s.c.Count("scenario:" + s.name)
@@ -392,6 +397,12 @@ func random(c *vh.Ctx, r *rand.Rand, idx int) {
 	for g := 0; g < nGen-1; g++ {
 		time.Sleep(time.Duration(500+r.Intn(6000)) * time.Microsecond)
 		k := cause(r.Intn(2)) // peer close or Close+reopen (timer-driven causes have their own scenarios)
+		if s1() {
+			// on SECS-I a Close that coincides with the end of a line transaction can report an
+			// acknowledged block as ErrConnClosed (known finding C20-secs1-acked-block-uncounted,
+			// not a generation crossing): random SECS-I histories end generations by peer close only
+			k = cPeerClose
+		}
 		cur := s.e.Gen()
 		s.inject(k, cur)
 		if !s.e.WaitSelected(cur+1, 10*time.Second) {
